@@ -11,9 +11,9 @@ CONSTANTS
   Dev_CsIndex = FALSE
   Dev_SizeHint = FALSE
   Dev_RsrcRecursion = FALSE
-  Dev_FirstDepth = TRUE
+  Dev_FirstDepth = FALSE
   Dev_KidsDepth = FALSE
-  FirstWalkIterative = FALSE
+  FirstWalkIterative = TRUE
   StackFrames = 1000
   StackFramesMax = 65536
   OutlineDepthLimit = 256
